@@ -2,7 +2,7 @@
 import os
 
 from . import core
-from .rules import stdio, cert, mark, exact, optstore, inval, idx, atomic, own, tokens, idxclass, copy, pair, structfree, buf, div, counter, sentinel, appendinit, verdict, basismap, zerotol, escape, lenclass, djsym, ndet, useb4check, norms, opencheck, shell, esolver, errlost, rescan, certdep, neverset, fmt, defaults, scratch, fullscan, slotleak, floatidx, sensemap
+from .rules import stdio, cert, mark, exact, optstore, inval, idx, atomic, own, tokens, idxclass, copy, pair, structfree, buf, div, counter, sentinel, appendinit, verdict, basismap, zerotol, escape, lenclass, djsym, ndet, useb4check, norms, opencheck, shell, esolver, errlost, rescan, certdep, neverset, fmt, defaults, scratch, fullscan, slotleak, floatidx, sensemap, trunc
 from .effects import Effects
 
 FIX = os.path.join(os.path.dirname(os.path.abspath(__file__)), "fixtures")
@@ -297,7 +297,8 @@ PROPS = {
                   lambda prog, tier: tokens.run_sections(prog, "mpq_ILLlib_writebasis", {"ENDATA"}, token_ok=lambda t: t.isupper()),
                   lambda prog, tier: _only(inval.run_fok(prog), "basis installed"),
                   lambda prog, tier: idxclass.run(prog, scope_units=("lib_mpq.c", "qsopt_mpq.c")),
-                  lambda prog, tier: fullscan.run(prog, ["mpq_ILLlib_writebasis"], ("lib_mpq.c",), floor=2)],
+                  lambda prog, tier: fullscan.run(prog, ["mpq_ILLlib_writebasis"], ("lib_mpq.c",), floor=2),
+                  lambda prog, tier: trunc.run(prog)],
         "technique": "who-may-write ownership rule over interprocedural write-effect summaries; table agreement of type-resolved string "
                      "literals (writer format literals vs reader strcmp operands / section tables); must-follow dataflow for factorok",
         "explanation": "Decides three structural clauses of C14: (R-OWN) no public function outside the frozen owner table may write or "
@@ -371,7 +372,8 @@ PROPS = {
                   lambda prog, tier: tokens.run_sections(prog, "mpq_ILLwrite_lp", {"End"}, print_funcs={"mpq_ILLprint_report": 1}, token_ok=lambda t: t[0].isupper()),
                   lambda prog, tier: idxclass.run(prog, scope_units=("lp_mpq.c", "write_lp_mpq.c", "rawlp_mpq.c")),
                   lambda prog, tier: sentinel.run(prog), lambda prog, tier: rescan.run(prog), lambda prog, tier: defaults.run(prog),
-                  lambda prog, tier: fullscan.run(prog, ["mpq_ILLwrite_lp"], ("lp_mpq.c", "write_lp_mpq.c"), floor=4)],
+                  lambda prog, tier: fullscan.run(prog, ["mpq_ILLwrite_lp"], ("lp_mpq.c", "write_lp_mpq.c"), floor=4),
+                  lambda prog, tier: trunc.run(prog)],
         "technique": "lossy-conversion sink census over the writer and reader call-graph closures; writer/reader agreement of type-resolved "
                      "keyword literals; must-pass analysis of section emitters before the terminator; index-space typing of the writer",
         "explanation": "Decides four structural clauses of the LP round trip: (R-EXACT) on every path of QSwrite_prob / QSreport_prob and of "
@@ -394,7 +396,7 @@ PROPS = {
                   lambda prog, tier: idxclass.run(prog, scope_units=("mps_mpq.c", "rawlp_mpq.c")),
                   lambda prog, tier: sentinel.run(prog), lambda prog, tier: appendinit.run(prog), lambda prog, tier: rescan.run(prog), lambda prog, tier: defaults.run(prog),
                   lambda prog, tier: fullscan.run(prog, ["mpq_ILLwrite_mps"], ("mps_mpq.c",), floor=6),
-                  lambda prog, tier: fullscan.run_rowfilter(prog)],
+                  lambda prog, tier: fullscan.run_rowfilter(prog), lambda prog, tier: trunc.run(prog)],
         "technique": "lossy-conversion sink census over writer/reader closures; table agreement (section names, bound mnemonics, row-type "
                      "letters, markers) between the MPS writer's format literals and the reader's tables / switch cases / strcmp operands; "
                      "must-pass analysis of section emitters before ENDATA; index-space typing",
@@ -562,7 +564,8 @@ PROPS = {
                   lambda prog, tier: buf.run(prog, scope_units=("esolver/",), floor=2),
                   lambda prog, tier: fmt.run(prog, scope=lambda f: f.unit.startswith("esolver/") or f.unit.endswith("qsopt_ex/exact.c"), floor=40),
                   lambda prog, tier: pair.run(prog, heap=True, units=("esolver/",), floors=(1, 3)),
-                  lambda prog, tier: fullscan.run(prog, ["QSexact_print_sol"], ("qsopt_ex/exact.c",), floor=4)],
+                  lambda prog, tier: fullscan.run(prog, ["QSexact_print_sol"], ("qsopt_ex/exact.c",), floor=4),
+                  lambda prog, tier: trunc.run(prog)],
         "technique": "path-sensitive typestate dataflow over main's CFG for the exit status (error recorded => non-zero return); "
                      "NULL-test dominance for file handles; table agreement between status constants and the words written; sibling "
                      "agreement of the four non-zero filters of QSexact_print_sol; lossy-conversion sink census; index-space typing; "
@@ -658,9 +661,16 @@ _ADD = {
                          "esolver's main; exit-condition analysis of the print loops",
             "explanation": " (R-FMT) no row / column name is used as a format string; (R-PAIR on esolver) the solution file is closed on every path; "
                            "(R-FULLSCAN) the print loops of QSexact_print_sol are exhaustive; R-NZFILTER follows the arrays into print helpers."},
+    "_TRUNC": {},
     "C20": {"explanation": " The handler variables tested by QSlogv must have process-wide storage duration: a thread-local handler would leave every "
                            "other thread of the host on the stderr branch."},
 }
+_ADD.pop("_TRUNC", None)
+for _pid in ("C08", "C09", "C14", "C19"):
+    _ADD.setdefault(_pid, {})
+    _ADD[_pid]["explanation"] = _ADD[_pid].get("explanation", "") + (" (R-TRUNC) a snprintf / vsnprintf whose buffer the same function hands to an "
+                                                                      "output stream has its returned length examined: output lines are never silently cut.")
+    _ADD[_pid]["technique"] = _ADD[_pid].get("technique", "") + "; formatted-write census of the output layer (buffer-to-stream flow, return value use)"
 for _pid, _d in _ADD.items():
     for _k, _v in _d.items():
         PROPS[_pid][_k] = PROPS[_pid].get(_k, "") + _v
